@@ -174,16 +174,9 @@ func runConcCase(c *Case, env *Env) *Result {
 			var closeCh chan struct{}
 			if p.CancelAt > 0 {
 				closeCh = make(chan struct{})
-				events, closed := 0, false
-				tick := func() {
-					events++
-					if events == p.CancelAt && !closed {
-						close(closeCh)
-						closed = true
-					}
-				}
-				wr.OnWrite = func(int, int) { tick() }
-				firstRA.OnRead = func(int) { tick() }
+				tk := NewTicker(p.CancelAt-1, closeCh, sched)
+				wr.OnWrite = tk.OnWrite
+				firstRA.OnRead = tk.OnRead
 				res.probe("prelude-merge-cancelled")
 			} else {
 				firstRA.SetFault(&ReadFault{From: firstRA.Calls() + p.FaultFrom, Kind: p.Kind})
@@ -481,6 +474,12 @@ func raceVerdict(prop string) *Fail {
 	if !strings.Contains(fresh, icePkg) {
 		panic(&HarnessPanic{Msg: "race report without ice frames (harness race)", Stack: fresh})
 	}
+	if harnessOnlyRace(fresh) {
+		// both racing accesses are made by harness code (say, a hook closure called
+		// from two goroutines the code under test started): a harness bug, however
+		// many ice frames sit further up the stacks
+		panic(&HarnessPanic{Msg: "race between two accesses made by harness code (harness race)", Stack: fresh})
+	}
 	site := "unknown"
 	for _, line := range strings.Split(fresh, "\n") {
 		line = strings.TrimSpace(line)
@@ -498,4 +497,35 @@ func raceVerdict(prop string) *Fail {
 		fresh = fresh[:5000] + "\n...[trimmed]"
 	}
 	return &Fail{Prop: prop, Oracle: "race-detector", Kind: "race", Site: site, Detail: "unsynchronised memory access reported by the Go race detector under the serialised schedule:\n" + fresh}
+}
+
+
+// harnessOnlyRace: in every report of the log excerpt, the innermost frame of
+// both racing accesses belongs to the harness.
+func harnessOnlyRace(log string) bool {
+	reports := strings.Split(log, "WARNING: DATA RACE")
+	seen := false
+	for _, r := range reports[1:] {
+		lines := strings.Split(r, "\n")
+		tops := 0
+		harness := 0
+		for i, ln := range lines {
+			t := strings.TrimSpace(ln)
+			if (strings.HasPrefix(t, "Read at ") || strings.HasPrefix(t, "Write at ") || strings.HasPrefix(t, "Previous read at ") || strings.HasPrefix(t, "Previous write at ") ||
+				strings.HasPrefix(t, "Atomic read at ") || strings.HasPrefix(t, "Atomic write at ") || strings.HasPrefix(t, "Previous atomic read at ") || strings.HasPrefix(t, "Previous atomic write at ")) && i+1 < len(lines) {
+				tops++
+				if strings.HasPrefix(strings.TrimSpace(lines[i+1]), "icesim/") {
+					harness++
+				}
+			}
+		}
+		if tops == 0 {
+			continue
+		}
+		seen = true
+		if harness < tops {
+			return false
+		}
+	}
+	return seen
 }
